@@ -295,6 +295,21 @@ class Inliner:
             if not _ends_in_return(body):
                 body.append(ast.copy_location(ast.Return(value=ast.Constant(value=None)), call))
             return pre + body
+        if isinstance(st, ast.Return):
+            # ``return not <call>``: the (pure) context moves into every return of the callee
+            hole = "__asl_hole__"
+            setattr(holder, fld, ast.Name(id=hole, ctx=ast.Load()))
+            template = st.value
+
+            def wrap(r: ast.Return) -> List[ast.stmt]:
+                value = r.value if r.value is not None else ast.Constant(value=None)
+                filled = _Rename({}, {hole: value}).visit(copy.deepcopy(template))
+                return [ast.copy_location(ast.Return(value=filled), r)]
+
+            body = _replace_returns(body, wrap)
+            if not _ends_in_return(body):
+                body.extend(wrap(ast.copy_location(ast.Return(value=None), call)))
+            return pre + body
         result_used = not isinstance(st, ast.Expr)
         direct = isinstance(st, (ast.Assign,)) and holder is st and isinstance(st.targets[0], ast.Name) \
             and st.targets[0].id not in {x.id for x in ast.walk(call) if isinstance(x, ast.Name)}
